@@ -118,7 +118,8 @@ def stub_stream(ck: Check):
     try:
         for _ in range(60):
             n = ck.rng.randint(0, 8)
-            plan = [ck.rng.choice(["v", "v", "ValueError", "ZeroDivisionError", "RuntimeError"]) for _ in range(n)]
+            plan = [ck.rng.choice(["v", "v", "ValueError", "ZeroDivisionError", "RuntimeError", "IndexError", "KeyError", "AttributeError", "TypeError",
+                                   "NotImplementedError", "AssertionError", "FloatingPointError", "Custom"]) for _ in range(n)]
             vals = [round(ck.rng.uniform(0.1, 9), 3) for _ in range(n)]
             t0 = rng.choice([0.0, -1.0, -1.5, 2.0])
             times = [t0 + float(i) * 0.5 for i in range(n)]
@@ -130,7 +131,12 @@ def stub_stream(ck: Check):
                 k[0] += 1
                 seen_method.append((method, kw))
                 if plan[i] != "v":
-                    raise {"ValueError": ValueError, "ZeroDivisionError": ZeroDivisionError, "RuntimeError": RuntimeError}[plan[i]]("x")
+                    class _Custom(Exception):
+                        pass
+
+                    raise {"ValueError": ValueError, "ZeroDivisionError": ZeroDivisionError, "RuntimeError": RuntimeError, "IndexError": IndexError,
+                           "KeyError": KeyError, "AttributeError": AttributeError, "TypeError": TypeError, "NotImplementedError": NotImplementedError,
+                           "AssertionError": AssertionError, "FloatingPointError": FloatingPointError, "Custom": _Custom}[plan[i]]("x")
                 return vals[i]
 
             ia.get_length_scale = stub3
@@ -235,6 +241,13 @@ def end_to_end(ck: Check, n_cases: int):
             fields.append(f)
             times.append(t)
             t += rng.choice([1.0, 0.5, 2.25])
+        order = rng.choice(["increasing", "increasing", "restarted", "decreasing"])
+        if order == "restarted" and nfr >= 3:
+            # the same tracker / time course used for a second run: the time axis starts again
+            times = times[: nfr // 2 + 1] + times[: nfr - nfr // 2 - 1]
+        elif order == "decreasing":
+            times = times[::-1]
+        ck.count("e2e_time_axis." + order)
         settings = dict(threshold=rng.choice([0.5, "auto", "mean", "otsu"]), minimal_radius=rng.choice([0, 1.0, 2.7]),
                         refine=rng.random() < 0.35, refine_args=rng.choice([None, {"tolerance": 1e-6}]),
                         perturbation_modes=rng.choice([0, 0, 2]) if dim == 2 else 0)
